@@ -1546,6 +1546,356 @@ def _c12_between_histories(ctx, corr: Corr):
     return hists
 
 
+# ---- C12 at scale: many messages held at the same time --------------------------------------------------------------
+#
+# The property quantifies over EVERY gateway state, so also over states in which thousands of messages are waiting for
+# sleeping nodes.  The histories below hold many messages at once - many keys (node, child, type) over few nodes, few
+# keys over many nodes, few keys sent over and over again, a random mixture with awake / unknown destinations,
+# intermediate wakes and a wake during which a write fails - and then wake every node.  They are far too long for an
+# observation of the whole state after every step (quadratic), so they have their own runner, which records per step
+# only what the property speaks about: the outcome of the call, the write attempts, and whether the destination was
+# flagged as sleeping when `send` was called (`gateway.nodes[n].sleeping`, the public registry).  The oracle is purely
+# observational: it never looks into the gateway's buffer.
+
+
+def _c12_scale_scenario(spec: dict) -> dict:
+    """The history of one scale scenario, in three parts: `setup` (the nodes present themselves; those that sleep
+    announce it), `body` (the sends, with whatever comes between them), `tail` (every sleeping node wakes).
+    spec: version (2.x), nodes (sleeping nodes 1..nodes), children / types (keys per node = children x types),
+    order ("by node" | "interleaved" | "random"), sweeps (every key is sent that many times, each time with a payload
+    of its own), awake (further nodes that presented themselves but never went to sleep), unknown (sends to a node
+    that never presented itself), mid_wakes (wakes of sleeping nodes between the sends), failing_wake (one of those
+    wakes has a write that fails part-way), seed (of the random choices)."""
+    import random
+    v = spec["version"]
+    t = gw.DEFAULT_TIME
+    rng = random.Random(f"c12scale:{spec.get('seed', 0)}")
+    wake_t = 32 if v == "2.2" else 22
+    types = [int(x) for x in list(proto_tables(v)["setreq"])[:spec["types"]]]
+    sleepers = list(range(1, spec["nodes"] + 1))
+    awake = list(range(spec["nodes"] + 1, spec["nodes"] + 1 + spec.get("awake", 0)))
+    dests = sleepers + awake + ([254] if spec.get("unknown") else [])
+
+    def wake(n, faults=()):
+        return ("recv", f"{n};255;3;0;{wake_t};500", faults, t)
+
+    setup = []
+    for n in sleepers + awake:
+        setup.append(("recv", f"{n};255;0;0;17;{v}", (), t))
+    for n in sleepers:
+        setup.append(wake(n))
+    children = list(range(spec["children"]))
+    if spec["order"] == "interleaved":
+        keys = [(n, c, ty) for c in children for ty in types for n in dests]
+    else:
+        keys = [(n, c, ty) for n in dests for c in children for ty in types]
+    sends = []
+    for k in range(spec.get("sweeps", 1)):
+        sweep = [("send", (n, c, 1, (n + c + ty + k) % 2, ty, f"{n}.{c}.{ty}.{k}"), True, ()) for n, c, ty in keys]
+        if spec["order"] == "random":
+            rng.shuffle(sweep)
+        sends += sweep
+    body = list(sends)
+    mids = spec.get("mid_wakes", 0)
+    if mids:
+        # wakes between the sends: the node stays a sleeping node afterwards, so what is sent to it later is held again
+        cuts = sorted(rng.sample(range(1, len(sends)), mids))
+        failing = rng.randrange(mids) if spec.get("failing_wake") else None
+        body, prev = [], 0
+        for j, cut in enumerate(cuts):
+            body += sends[prev:cut]
+            prev = cut
+            n = rng.choice(sleepers)
+            if j == failing:
+                # a write fails after a few of the node's held messages were written: the rest must stay held
+                body.append(wake(n, (False,) * rng.randint(0, 3) + (True,)))
+            else:
+                body.append(wake(n))
+        body += sends[prev:]
+    tail = [wake(n) for n in sleepers]
+    return {"spec": spec, "setup": setup, "body": body, "tail": tail}
+
+
+def _c12_scale_hist(sc: dict, body=None) -> Hist:
+    return Hist(sc["spec"]["version"], True, [], sc["setup"] + (sc["body"] if body is None else body) + sc["tail"])
+
+
+async def _c12_scale_run_async(h: Hist, checkpoints=()):
+    """One (long) history on the real gateway, observed per step as (outcome, write attempts, active protocol before
+    the step, `sleeping` flag of the destination before a send); the rendered state only after the steps listed in
+    `checkpoints`.  Received lines are consumed through one `gateway.listen()` generator, renewed after a step that raised."""
+    g, tr = gw.build_gateway(h)
+    listener = None
+    obs, states = [], {}
+    for i, op in enumerate(h.ops):
+        tr.attempts = []
+        proto = g.protocol.VERSION
+        sleeping = None
+        if op[0] == "recv":
+            _, line, faults, now = op
+            tr.lines = [line]
+            tr.faults = list(faults)
+            gw.TIME_STUB.now = tuple(now)
+            if listener is None:
+                listener = g.listen()
+            try:
+                out = gw.render_msg(await anext(listener))
+            except BaseException as e:  # noqa: BLE001
+                out = gw.render_exc(e)
+                listener = None
+        else:
+            _, fields, buffer, faults = op
+            tr.faults = list(faults)
+            node = g.nodes.get(fields[0])
+            sleeping = bool(node is not None and node.sleeping)
+            try:
+                await g.send(gw.Message(*fields), message_buffer=buffer)
+                out = "ok"
+            except BaseException as e:  # noqa: BLE001
+                out = gw.render_exc(e)
+        obs.append((out, tr.attempts, proto, sleeping))
+        if i in checkpoints:
+            states[i] = gw.render_state(g)
+    if listener is not None:
+        await listener.aclose()
+    return obs, states
+
+
+def _c12_scale_run(h: Hist, checkpoints=()):
+    import asyncio
+    return asyncio.run(_c12_scale_run_async(h, checkpoints))
+
+
+def _c12_scale_oracle(h: Hist, obs) -> tuple[list, dict]:
+    """C12 restated over the observations of `_c12_scale_run`, with no access to the gateway's internals.  A send that
+    returns normally either handed exactly its own line to the transport, or wrote nothing - which the property allows
+    only for a destination that is sleeping, and then that line (the LAST one sent for its (node, child, type): a newer
+    command for the same key replaces the waiting one) has to be handed to the transport, once, at that node's next
+    wake; if a write of that wake fails, whatever was not written has to come at a later wake.  At the end of the
+    history (every sleeping node woke, no write failed) nothing may still be waiting.
+    Returns (problems, statistics); a problem is {"what", "step" (1-based), "line", ...}."""
+    problems = []
+    stats = {"held": 0, "released": 0, "written at once": 0, "library error": 0, "max held at once": 0, "replaced": 0}
+    pending: dict[int, dict] = {}      # node -> {(node, child, type): (line, step)}
+    n_pending = 0
+    for i, (op, (out, writes, proto, sleeping)) in enumerate(zip(h.ops, obs)):
+        if op[0] == "send":
+            f = op[1]
+            if out.startswith("foreign"):
+                problems.append({"what": "send raised an exception that is not a library error", "step": i + 1, "outcome": out})
+                continue
+            if out.startswith("err"):
+                stats["library error"] += 1
+                continue
+            line = line_of(f)
+            if len(writes) == 1 and writes[0] == (line, True):
+                stats["written at once"] += 1
+                continue
+            if not writes and sleeping:
+                of_node = pending.setdefault(f[0], {})
+                key = (f[0], f[1], f[4])
+                if key in of_node:
+                    stats["replaced"] += 1
+                else:
+                    n_pending += 1
+                of_node[key] = (line, i + 1)
+                stats["held"] += 1
+                stats["max held at once"] = max(stats["max held at once"], n_pending)
+                continue
+            problems.append({"what": "send returned normally but the message was neither written nor held for a sleeping destination",
+                             "step": i + 1, "line": line, "writes": [list(w) for w in writes[:5]], "destination_sleeping": sleeping})
+        elif op[0] == "recv":
+            f = fields_of(op[1])
+            if f is None or not is_wake(proto, f) or f[0] not in pending:
+                continue
+            got: dict[str, int] = {}
+            for w, ok in writes:
+                if ok:
+                    got[w] = got.get(w, 0) + 1
+            failed = out in ("err transportFailed", "foreign CancelledError") and any(not ok for _, ok in writes)
+            of_node = pending[f[0]]
+            for key in list(of_node):
+                line, step = of_node[key]
+                if line in got:
+                    if got[line] > 1:
+                        problems.append({"what": "a held message was handed to the transport more than once at its node's wake",
+                                         "step": i + 1, "line": line, "held_since_step": step})
+                    stats["released"] += 1
+                elif failed:
+                    continue      # a write of this wake failed: the message has to come at a later wake
+                else:
+                    problems.append({"what": "a held message was neither handed to the transport at its node's wake nor kept for a later one",
+                                     "step": i + 1, "line": line, "held_since_step": step, "outcome_of_the_wake": out[:60],
+                                     "writes_of_the_wake": len(writes), "held_at_once_before_the_wake": n_pending})
+                del of_node[key]
+                n_pending -= 1
+            if not of_node:
+                del pending[f[0]]
+    for of_node in pending.values():
+        for line, step in of_node.values():
+            problems.append({"what": "a held message was never released although its node woke", "step": len(h.ops),
+                             "line": line, "held_since_step": step})
+    return problems, stats
+
+
+def _c12_scale_shrink(sc: dict, what: str) -> tuple[Hist, dict]:
+    """A shorter history with the same kind of failure: the shortest prefix of the sends (the nodes still wake at the
+    end) on which the oracle still reports `what`, then without as many of the first sends as can be left out.  Both
+    by bisection (a few dozen runs of some milliseconds each); the result is re-checked, else the full history stands."""
+    body = sc["body"]
+
+    def fails(b):
+        h = _c12_scale_hist(sc, b)
+        probs, _ = _c12_scale_oracle(h, _c12_scale_run(h)[0])
+        return any(p["what"] == what for p in probs)
+
+    lo, hi = 0, len(body)            # invariant: body[:hi] fails
+    while lo < hi:
+        mid = (lo + hi) // 2
+        if fails(body[:mid]):
+            hi = mid
+        else:
+            lo = mid + 1
+    short = body[:hi]
+    lo, hi2 = 0, len(short)          # largest head that can be dropped
+    while lo < hi2:
+        mid = (lo + hi2 + 1) // 2
+        if fails(short[mid:]):
+            lo = mid
+        else:
+            hi2 = mid - 1
+    short = short[lo:]
+    info = {"sends_and_wakes_between_setup_and_final_wakes": len(short), "of": len(body)}
+    if short and len(short) < len(body) and fails(short):
+        if not fails(short[:-1]):
+            info["note"] = (f"with one operation less between the setup and the final wakes ({len(short) - 1}) every held message "
+                            "is delivered; with this one, one is lost")
+        return _c12_scale_hist(sc, short), info
+    return _c12_scale_hist(sc), {"note": "not shortened"}
+
+
+def _c12_scale_specs(ctx) -> list[tuple[dict, bool]]:
+    """(spec, compare with the Lean model?) of this run.  Sizes vary a little with the seed; the versions rotate."""
+    rng = lib.rng_for(ctx.seed, "c12scale")
+    vs = [V20[(ctx.seed + k) % 3] for k in range(3)]
+    j = lambda a: a + rng.randint(0, max(1, a // 10))      # noqa: E731
+    specs = []
+    for r, v in enumerate(vs if ctx.tier == "thorough" else vs[:1]):
+        w = [vs[(r + k) % 3] for k in range(3)]
+        specs += [
+            # many keys over few nodes, node after node
+            ({"name": "many keys, few nodes", "version": w[0], "nodes": 6, "children": j(50), "types": 5, "order": "by node"}, True),
+            # the same number of keys, the nodes taking turns (the oldest held messages belong to every node)
+            ({"name": "many keys, nodes taking turns", "version": w[1], "nodes": 12, "children": j(25), "types": 5, "order": "interleaved"}, True),
+            # (nearly) as many sleeping nodes as there are node ids, a few keys each
+            ({"name": "many sleeping nodes", "version": w[2], "nodes": j(200), "children": 2, "types": 4, "order": "interleaved"}, True),
+            # few keys, each replaced hundreds of times: the last value of each is what has to arrive
+            ({"name": "few keys replaced many times", "version": w[0], "nodes": 3, "children": 1, "types": 2, "order": "by node",
+              "sweeps": j(300)}, True),
+            # everything at once, in random order
+            ({"name": "random mixture", "version": w[1], "nodes": 8, "awake": 2, "unknown": True, "children": j(25), "types": 5,
+              "order": "random", "sweeps": 2, "mid_wakes": 6, "failing_wake": True}, True),
+        ]
+    big = [
+        ({"name": "5 000 keys", "version": vs[2], "nodes": 10, "children": j(100), "types": 5, "order": "by node"}, ctx.tier == "thorough"),
+        ({"name": "20 000 keys", "version": vs[0], "nodes": 40, "children": j(100), "types": 5, "order": "interleaved"}, False),
+    ]
+    if ctx.tier == "thorough":
+        big.append(({"name": "70 000 keys", "version": vs[1], "nodes": 70, "children": j(200), "types": 5, "order": "by node"}, False))
+        big.append(({"name": "250 000 keys", "version": vs[2], "nodes": 250, "children": j(200), "types": 5, "order": "random"}, False))
+    specs += big
+    for k, (spec, _) in enumerate(specs):
+        spec["seed"] = f"{ctx.seed}:{k}"
+    return specs
+
+
+def _c12_scale(ctx, corr: Corr) -> None:
+    """The scale scenarios of C12: run, judged by `_c12_scale_oracle`, and - those whose length the driver manages in
+    a few seconds - compared with the Lean model on the writes view (outcome class and write attempts of EVERY step;
+    both buffers after the setup, before the final wakes and at the end)."""
+    from concurrent.futures import ThreadPoolExecutor
+    runs = []
+    for spec, with_model in _c12_scale_specs(ctx):
+        sc = _c12_scale_scenario(spec)
+        h = _c12_scale_hist(sc)
+        cps = (len(sc["setup"]) - 1, len(sc["setup"]) + len(sc["body"]) - 1, len(h.ops) - 1)
+        obs, states = _c12_scale_run(h, cps)
+        runs.append((sc, h, cps, obs, states, with_model and ctx.model_ok))
+    shrunk = False
+    for sc, h, cps, obs, states, _ in runs:
+        spec = sc["spec"]
+        problems, stats = _c12_scale_oracle(h, obs)
+        corr.count("scale: histories")
+        corr.count("scale: " + spec["name"])
+        corr.count("scale: operations", len(h.ops))
+        for k in ("held", "released", "replaced", "written at once", "library error"):
+            corr.count("scale oracle: send " + k if k in ("held", "written at once", "library error") else
+                       "scale oracle: held message " + k + (" at its node's wake" if k == "released" else " by a newer one for its key"), stats[k])
+        corr.dist["scale: most messages held at the same time"] = max(corr.dist.get("scale: most messages held at the same time", 0),
+                                                                      stats["max held at once"])
+        for i, (op, o) in enumerate(zip(h.ops, obs)):
+            if op[0] == "send":
+                held = o[0] == "ok" and not o[1]
+                corr.case(hash(("scale", spec["version"], op[1], held)), held,
+                          {"scale": spec["name"], "version": spec["version"], "op": list(op), "outcome": o[0], "writes": [w[0] for w in o[1]],
+                           "held_at_once": stats["max held at once"]} if i == len(sc["setup"]) + len(sc["body"]) // 2 else None)
+        if not problems:
+            continue
+        first = problems[0]
+        same = [p for p in problems if p["what"] == first["what"]]
+        case = {"scenario": spec, "problem": first, "problems_of_this_kind": len(same),
+                "lines_concerned": [p.get("line") for p in same[:8]], "statistics": stats}
+        if not shrunk:
+            # one full (shortened) history per run is enough for the replay; the other scenarios are named by their spec
+            shrunk = True
+            hs, info = _c12_scale_shrink(sc, first["what"])
+            ps, st = _c12_scale_oracle(hs, _c12_scale_run(hs)[0])
+            ps = [p for p in ps if p["what"] == first["what"]] or same
+            case.update({"problem": ps[0], "problems_of_this_kind": len(ps), "lines_concerned": [p.get("line") for p in ps[:8]],
+                         "statistics": st, "shortened": info, "history": hs.to_json()})
+        else:
+            case["history_omitted"] = "regenerate with harness.props.gateway._c12_scale_scenario(scenario)"
+        corr.violate(first["what"] + " (many messages held at the same time)", case)
+    # the model, for the histories the driver manages: one driver process per history, in parallel
+    todo = [r for r in runs if r[5]]
+
+    def model_of(r):
+        sc, h, cps, *_ = r
+        ml = gw.model_lines(h)            # gnew, gdump, then (operation, gdump) per step: keep the dumps of the checkpoints only
+        lines = ml[:1]
+        for i in range(len(h.ops)):
+            lines.append(ml[2 + 2 * i])
+            if i in cps:
+                lines.append("gdump")
+        return lib.run_model(lines, timeout=900)
+
+    if todo:
+        with ThreadPoolExecutor(max_workers=8) as ex:
+            outs_all = list(ex.map(model_of, todo))
+        for (sc, h, cps, obs, states, _), outs in zip(todo, outs_all):
+            corr.count("scale: histories compared with the model")
+            corr.count("scale: operations compared with the model", len(h.ops))
+            if outs[0] != "ok":
+                raise lib.ModelError(f"model rejected a setup operation: {outs[0]}")
+            pos = 1
+            for i, (out, writes, _, _) in enumerate(obs):
+                mout = outs[pos]
+                pos += 1
+                head, _, mw = mout.partition(" W")
+                a, bb = (out_class(out), gw.render_writes(writes)[2:]), (out_class(mout), mw)
+                if i in cps:
+                    ist, mst = split_state(states[i]), split_state(outs[pos])
+                    pos += 1
+                    a, bb = a + (ist["ibuf"], ist["sbuf"]), bb + (mst["ibuf"], mst["sbuf"])
+                if a != bb:
+                    k = next((k for k in range(len(a)) if a[k] != bb[k]), 0)
+                    corr.disagree("writes view (many messages held at the same time)",
+                                  {"scenario": sc["spec"], "step": i + 1, "op": list(h.ops[i]), "view": "writes",
+                                   "differs_in": ("outcome", "writes", "ibuf", "sbuf")[k],
+                                   "impl": a[k][:300], "model": bb[k][:300], "impl_len": len(a[k]), "model_len": len(bb[k])})
+                    break
+
+
 def run_c12(ctx) -> Corr:
     corr = Corr("C12", "send of every command 0-4 x every type number of the active protocol's table for that command (and a few "
                 "outside it) x buffering flag on/off x destination unknown/awake/sleeping x 5 versions x write fault or not, "
@@ -1554,7 +1904,21 @@ def run_c12(ctx) -> Corr:
                 "before every wake -, sends other messages, other nodes and the gateway talk, rejected lines, a reconnect, further "
                 "sends; 28 kinds x 4 shapes x 5 versions and random cycles over two nodes with failing wakes); compared on the "
                 "writes view with the Lean model; oracle = the trichotomy written / parked-for-a-sleeping-node-and-released-"
-                "(once)-at-its-next-wake / library error. non-trivial = distinct (version, destination state, message, flag, fault)")
+                "(once)-at-its-next-wake / library error; plus scale scenarios (_c12_scale): thousands of set commands waiting for "
+                "sleeping nodes at the same time (many keys over few nodes, nodes taking turns, ~200 sleeping nodes, few keys "
+                "replaced hundreds of times, a random mixture with awake / unknown destinations, wakes in between and a wake with "
+                "a failing write; 1 500 - 20 000 keys, thorough: up to 250 000), every send returning normally, then every node "
+                "wakes: the last line sent for every key is handed to the transport exactly once. "
+                "non-trivial = distinct (version, destination state, message, flag, fault); scale: distinct held sends")
+    corr.notes.append("scale scenarios (_c12_scale): judged by an observational oracle of their own (_c12_scale_oracle: outcome, write "
+                      "attempts, the destination's public `sleeping` flag at the time of the send - never the gateway's buffer). The "
+                      "scenarios of up to ~3 000 operations are also run through the Lean model's driver (recv / send operations only) "
+                      "and compared on the writes view: outcome class and write attempts of every step, both buffers at three "
+                      "checkpoints (after the setup, before the final wakes, at the end) instead of after every step, because dumping "
+                      "a state with thousands of held messages after each of thousands of steps is quadratic. The scenarios with "
+                      "5 000 keys (quick tier) and with 20 000 keys and more (both tiers) are judged by the oracle alone: the driver "
+                      "(interpreted, association lists) needs ~7 s for 5 000 operations and grows quadratically. Protocols 1.4 / 1.5 "
+                      "have no wake message, so the scale scenarios use the 2.x protocols only.")
     corr.notes.append("the histories with traffic between hold and wake (_c12_between_histories) consist of recv / send / session "
                       "operations only, all of which the gateway model's driver has: they are compared with the Lean model on the "
                       "writes view AND judged by the oracle (_c12_oracle), like the other C12 histories")
@@ -1609,6 +1973,7 @@ def run_c12(ctx) -> Corr:
     for h, io in zip(hists, impl):
         _c12_oracle(corr, h, io)
     account(corr, hists, impl, lambda h, op, before, o: op[0] == "send")
+    _c12_scale(ctx, corr)
     return corr
 
 
